@@ -2,6 +2,7 @@ from __future__ import annotations
 
 import logging
 import threading
+import time
 from collections.abc import Callable
 from concurrent.futures import Future, ThreadPoolExecutor
 
@@ -315,6 +316,28 @@ class ThreadStatusesMonitor:
                 )
             success &= result
         return success
+
+    def wait_for_all_threads_resume(
+        self, timeout: float, poll_interval: float = 1e-3
+    ) -> bool:
+        """Wait until no thread is marked as paused any more.
+
+        A thread released from a pause clears its paused flag only once it is
+        scheduled again, so right after a resume its flag may still be set.
+
+        Args:
+            timeout: The maximum time (second) to wait.
+            poll_interval: The interval (second) between two checks.
+
+        Returns:
+            bool: True if no thread is marked as paused, False if the timeout elapsed first.
+        """
+        deadline = time.monotonic() + timeout
+        while self.check_any_threads_paused():
+            if time.monotonic() >= deadline:
+                return False
+            time.sleep(poll_interval)
+        return True
 
     def check_exception_raised(self) -> bool:
         """Check if any thread has an exception.
